@@ -227,9 +227,25 @@ type scriptReader struct {
 	script []int
 	i      int
 	given  []byte
+	// a conforming io.Reader that is offered no room returns (0, nil) and keeps its data: the
+	// script does not advance.  ReadFrom that keeps offering an empty buffer never makes progress
+	// with such a reader; after maxNoRoom consecutive empty offers the reader fails the call and
+	// the oracle reports the livelock.
+	noRoom  int
+	starved bool
 }
 
+const maxNoRoom = 8
+
 func (r *scriptReader) Read(p []byte) (int, error) {
+	if len(p) == 0 {
+		if r.noRoom++; r.noRoom > maxNoRoom {
+			r.starved = true
+			return 0, errBoom
+		}
+		return 0, nil
+	}
+	r.noRoom = 0
 	if r.i >= len(r.script) {
 		return 0, io.EOF
 	}
@@ -512,6 +528,9 @@ func (m *c10) Apply(op seqmc.Op) (string, string) {
 			n, err = x.rb.ReadFrom(r)
 		}
 		x.ref = append(x.ref, r.given...)
+		if r.starved {
+			return fmt.Sprintf("%s.ReadFrom%v offered the reader an empty buffer %d times in a row: a conforming reader that has data never gets to deliver it", k, op.A[1:], maxNoRoom+1), k + ".ReadFrom:noroom"
+		}
 		if n != int64(len(r.given)) {
 			return fmt.Sprintf("%s.ReadFrom%v = %d, %v but the reader handed out %d bytes", k, op.A[1:], n, err, len(r.given)), k + ".ReadFrom:count"
 		}
